@@ -574,7 +574,7 @@ func c11(c *core.Check) {
 	c11GrowingLists(c)
 	c11EndSpacing(c)
 	c11DeadArithmetic(c)
-	r9 := c.Rule("R9", "running extrema: every guarded update `if a < b { c = a }` of the inline layout and text code compares the new value with the variable it updates (the line's running top, bottom, width …): a comparison with another variable overwrites the extremum instead of extending it", 32)
+	r9 := c.Rule("R9", "running extrema: every guarded update `if a < b { c = a }` of the inline layout and text code compares the new value with the variable it updates (the line's running top, bottom, width …): a comparison with another variable overwrites the extremum instead of extending it", 33)
 	extremumRule(c, r9, "html/layout", 10)
 	extremumRule(c, r9, "text", 2)
 
